@@ -99,7 +99,7 @@ func genMuts(r *simcore.Rand, k *Knobs) []Mut {
 }
 
 func genRead(r *simcore.Rand, k *Knobs, iter bool) Read {
-	rd := Read{Root: r.Intn(1 << 12), A: r.Intn(k.Accounts), S: r.Intn(k.Slots), Held: r.Bool(0.15)}
+	rd := Read{Root: r.Intn(1 << 12), A: r.Intn(k.Accounts), S: r.Intn(k.Slots), Held: r.Bool(0.3)}
 	if iter {
 		rd.Kind = 4 + r.Intn(4)
 		switch r.Intn(5) {
@@ -113,7 +113,7 @@ func genRead(r *simcore.Rand, k *Knobs, iter bool) Read {
 		rd.Held = false
 		return rd
 	}
-	rd.Kind = r.Pick(4, 4, 3, 1)
+	rd.Kind = r.Pick(4, 4, 5, 2)
 	if rd.Kind == 2 {
 		rd.S = r.Intn(64)
 		if r.Bool(0.15) {
